@@ -6,7 +6,7 @@
   Outside the model, hence not claimed: real thread scheduling, clock jumps, hash collisions,
   /etc/localtime changing without its mtime changing.
 -/
-import Chrono.Proofs.LocalCacheHistL
+import Chrono.Proofs.LocalCacheNarrowL
 
 namespace Chrono.Props.C18
 open Chrono.M.LocalCache Chrono.Spec.LocalCache Chrono.Proofs.LocalCache Chrono.Extracted.LocalCache
@@ -50,6 +50,47 @@ theorem selection_table (W : World) :
     (∀ tz, TimeZone.local W tz = none → current_zone W tz = (systemZone W).getD .utc) :=
   ⟨local_eq W none, rfl, by rw [local_eq]; rfl, row_colon_abs W, row_colon_rel W, row_plain_file W,
    row_plain_rule W, fun tz => (row_fallback W tz).1, fun tz => (row_fallback W tz).2⟩
+
+/-- **Points the property text leaves open, as the code (and the specification) resolve them** —
+behaviour a user would not infer from the statement:
+1. a name that is both a file below a zoneinfo directory and a valid POSIX rule ("UTC", "EST5EDT") is
+   read as the FILE, never as the rule — also when that file cannot be read or is not TZif (then: the
+   system zone);
+2. with a leading ':' the rule reader is never used: `:EST5EDT` with no such file is an error (system
+   zone), not the rule;
+3. "exists" means "can be opened": the FIRST candidate that exists decides, even if it is a directory
+   or not TZif and a later zoneinfo directory holds a good file;
+4. `TZ=localtime` (exactly, no colon) means /etc/localtime, not `<zoneinfo>/localtime`;
+5. white space is trimmed only for the rule reading: the file lookup uses the string as it is. -/
+theorem open_points_resolved (W : World) :
+    (∀ tz p, tz ≠ [] → tz ≠ localtimeWord → tz.head? ≠ some colon → fileNamed W tz = some p →
+      named W (some tz) = zoneIn W p ∧ (∀ s c, named W (some tz) ≠ some (.rule s c)) ∧
+      (zoneIn W p = none → zoneFor W (some tz) = (systemZone W).getD .utc)) ∧
+    (∀ n s c, named W (some (colon :: n)) ≠ some (.rule s c)) ∧
+    (∀ n, fileNamed W n = (candidates n).find? (exists_ W)) ∧
+    (∀ p, exists_ W p = true ↔ W.fs p ≠ .absent) ∧
+    named W (some localtimeWord) = zoneIn W etcLocaltime ∧
+    (∀ tz, tz ≠ [] → tz ≠ localtimeWord → tz.head? ≠ some colon → fileNamed W tz = none →
+      named W (some tz) = (W.rule (trimmed tz)).map (Zone.rule (trimmed tz))) := by
+  have hz : ∀ p s c, zoneIn W p ≠ some (.rule s c) := by
+    intro p s c h
+    unfold zoneIn at h
+    split at h <;> simp at h
+  refine ⟨?_, ?_, fun _ => rfl, ?_, rfl, ?_⟩
+  · intro tz p h0 h1 h2 hf
+    have e : named W (some tz) = zoneIn W p := by rw [← local_eq]; exact row_plain_file W tz p h0 h1 h2 hf
+    refine ⟨e, fun s c => by rw [e]; exact hz p s c, fun hn => ?_⟩
+    unfold zoneFor; rw [e, hn]; rfl
+  · intro n s c h
+    rw [named_cons] at h
+    have h1 : ¬ (colon :: n = localtimeWord) := by simp [colon, localtimeWord]
+    rw [if_neg h1, if_pos rfl] at h
+    cases hf : fileNamed W n with
+    | none => rw [hf] at h; simp at h
+    | some p => rw [hf] at h; exact hz p s c h
+  · intro p; unfold exists_; simp
+  · intro tz h0 h1 h2 hf
+    rw [← local_eq]; exact row_plain_rule W tz h0 h1 h2 hf
 
 /-- the cache is reused exactly while less than one second has passed on a clock that did not go
 backwards -/
@@ -101,6 +142,52 @@ theorem honoured_after_1s (W : World) (e0 : EnvVal) (k0 : Nat) (p1 p2 : List Ste
     exact envAfter_nochange _ r (fun x hx => hno x (by rw [hb]; exact List.mem_append_right _ hx))
   rw [e1, e2]
 
+/-- `honoured_after_1s` under the narrowest assumption on the hash that the mechanism allows
+(`hash_collision_is_not_covered` shows it cannot be dropped): no TZ value that occurred up to the
+last change has the same hash as the value that change set, unless it is that value.  Collisions
+among older values are harmless; and when the last change unsets TZ (or sets it to non-text) nothing
+at all is assumed. -/
+theorem honoured_after_1s_narrow (W : World) (e0 : EnvVal) (k0 : Nat) (p1 p2 : List Step) (chg : Step)
+    (hno : ∀ x ∈ p2, isChange x = false) (hwait : ONE_SECOND ≤ elapsed p2)
+    (hsep : ∀ cur, env_var (envAfter e0 (p1 ++ [chg])) = some cur →
+      ∀ v ∈ valuesOf e0 (p1 ++ [chg]), W.hash v = W.hash cur → v = cur)
+    (t : Nat) (localDir : Bool) :
+    zoneOfStep (step W (exec W (init e0 k0) (p1 ++ chg :: p2)) (.convert t localDir)) =
+      some (zoneFor W (env_var (envAfter e0 (p1 ++ chg :: p2)))) :=
+  honoured_after_1s_narrow' W e0 k0 p1 p2 chg hno hwait hsep t localDir
+
+/-- **What the caller sees.**  The theorems above name the zone the cache lookup yields; a public
+conversion returns what that one zone answers (`Lookups`: the zone's own lookup functions, C05/C16),
+in the direction asked for.  For every history: both `offset_from_utc_datetime` and
+`offset_from_local_datetime`, called next on any thread, return the answer of the zone demanded for
+the value TZ had at a point less than one second back. -/
+theorem honoured_result {β : Type} (L : Lookups β) (W : World) (e0 : EnvVal) (k0 : Nat) (h : List Step)
+    (hinj : InjOn W (valuesOf e0 h)) (t : Nat) (d : Int) :
+    ∃ q r, h = q ++ r ∧ elapsed r < ONE_SECOND ∧
+      (Local.offset_from_utc_datetime L W (exec W (init e0 k0) h) t d).2 =
+        L.utc (zoneFor W (env_var (envAfter e0 q))) d ∧
+      (Local.offset_from_local_datetime L W (exec W (init e0 k0) h) t d).2 =
+        L.loc (zoneFor W (env_var (envAfter e0 q))) d := by
+  obtain ⟨q, r, e, hr, hz⟩ := honoured_within_last_second W e0 k0 h hinj t false
+  have hz' : (inner_offset W (exec W (init e0 k0) h) t).2.1 = zoneFor W (env_var (envAfter e0 q)) :=
+    Option.some.inj hz
+  exact ⟨q, r, e, hr, by show L.utc _ d = _; rw [hz'], by show L.loc _ d = _; rw [hz']⟩
+
+/-- … and for a newly started thread: the answer of the zone demanded for the value TZ has at that
+moment, in both directions -/
+theorem new_thread_result {β : Type} (L : Lookups β) (W : World) (s0 : State) (pre mid : List Step)
+    (t : Nat) (d : Int) (hmid : noConvertOn t mid = true) :
+    (Local.offset_from_utc_datetime L W (exec W s0 (pre ++ .spawn t :: mid)) t d).2 =
+      L.utc (zoneFor W (env_var (exec W s0 (pre ++ .spawn t :: mid)).env)) d ∧
+    (Local.offset_from_local_datetime L W (exec W s0 (pre ++ .spawn t :: mid)) t d).2 =
+      L.loc (zoneFor W (env_var (exec W s0 (pre ++ .spawn t :: mid)).env)) d := by
+  have h := new_thread_immediate' W s0 pre mid t false hmid
+  have hz : (inner_offset W (exec W s0 (pre ++ .spawn t :: mid)) t).2.1 =
+      zoneFor W (env_var (exec W s0 (pre ++ .spawn t :: mid)).env) := by
+    have := congrArg (Option.map Prod.fst) h
+    exact Option.some.inj this
+  exact ⟨by show L.utc _ d = _; rw [hz], by show L.loc _ d = _; rw [hz]⟩
+
 /-- while TZ is never changed, every conversion uses the zone demanded for it (no assumption) -/
 theorem honoured_without_change (W : World) (e0 : EnvVal) (k0 : Nat) (h : List Step)
     (hno : ∀ x ∈ h, isChange x = false) (t : Nat) (localDir : Bool) :
@@ -145,6 +232,32 @@ theorem one_zone_per_conversion {β : Type} (L : Lookups β) (W : World) (s : St
       ((Local.offset_from_local_datetime L W s t d).1.caches t).map Cache.zone = some z ∧
       zoneOfStep (step W s (.convert t false)) = some z ∧ zoneOfStep (step W s (.convert t true)) = some z :=
   one_zone' L W s t d
+
+/-- **Every public entry point performs exactly one zone lookup.**  `Api.*` (Model/LocalCache.lean)
+writes `impl TimeZone for Local`, `Local::now` and the trait defaults they reach as the calls they
+make, over a state that counts `inner::offset_from_*_datetime` calls.  For each of the eight entry
+points: the counter goes up by exactly one; the process state afterwards is that of one cache lookup;
+the answer is the lookup function of the right direction (UTC → `L.utc`, local → `L.loc`; the date
+forms ask at midnight, `now` at the instant `Utc::now()` returned) applied to the one zone that lookup
+yielded, which is the zone left in the thread's cache.  Hence no conversion mixes two zones, and none
+uses the wrong direction.  (Driver op `lc.off` runs these functions; the harness compares their answer
+with `Local`'s for readings where the two directions differ.) -/
+theorem one_lookup_per_entry_point {β : Type} (L : Lookups β) (W : World) (c : Counted) (t : Nat) (d : Int) :
+    OneLookup L W c t d false (Api.offset_from_utc_datetime L W c t d).1 (Api.offset_from_utc_datetime L W c t d).2 ∧
+    OneLookup L W c t d true (Api.offset_from_local_datetime L W c t d).1 (Api.offset_from_local_datetime L W c t d).2 ∧
+    OneLookup L W c t d false (Api.offset_from_utc_date L W c t d).1 (Api.offset_from_utc_date L W c t d).2 ∧
+    OneLookup L W c t d true (Api.offset_from_local_date L W c t d).1 (Api.offset_from_local_date L W c t d).2 ∧
+    (OneLookup L W c t d false (Api.from_utc_datetime L W c t d).1 (Api.from_utc_datetime L W c t d).2.2 ∧
+      (Api.from_utc_datetime L W c t d).2.1 = d) ∧
+    (OneLookup L W c t d true (Api.from_local_datetime L W c t d).1 (Api.from_local_datetime L W c t d).2.2 ∧
+      (Api.from_local_datetime L W c t d).2.1 = d) ∧
+    (OneLookup L W c t d false (Api.with_timezone L W c t d).1 (Api.with_timezone L W c t d).2.2 ∧
+      (Api.with_timezone L W c t d).2.1 = d) ∧
+    (OneLookup L W c t d false (Api.now L W c t d).1 (Api.now L W c t d).2.2 ∧ (Api.now L W c t d).2.1 = d) :=
+  ⟨inner_counted_one L W c t d false, inner_counted_one L W c t d true, inner_counted_one L W c t d false,
+   inner_counted_one L W c t d true, ⟨inner_counted_one L W c t d false, rfl⟩,
+   ⟨inner_counted_one L W c t d true, rfl⟩, ⟨inner_counted_one L W c t d false, rfl⟩,
+   ⟨inner_counted_one L W c t d false, rfl⟩⟩
 
 /-! ### witnesses: non-vacuity, and that the hypotheses cannot be dropped -/
 
@@ -237,5 +350,28 @@ example :
        (.tzif (usrShareZoneinfo ++ [47, 98]) 2, .reloaded),
        (.tzif (usrShareZoneinfo ++ [47, 98]) 2, .rechecked),
        (.tzif etcLocaltime 7, .reloaded)] := by decide
+
+/-- the five points on concrete values: "b" is a zone file and (here) also a rule; ":XYZ-3" is not
+read as a rule; "/d" (a directory) and "/x" (not TZif) exist and therefore decide; padded "b" is not
+found as a file -/
+example :
+    current_zone { W0 sumHash with rule := fun _ => some 3 } (some [98]) = .tzif (usrShareZoneinfo ++ [47, 98]) 2 ∧
+    current_zone (W0 sumHash) (some [58, 88, 89, 90, 45, 51]) = .tzif (usrShareZoneinfo ++ [47, 83]) 9 ∧
+    current_zone (W0 sumHash) (some [88, 89, 90, 45, 51]) = .rule [88, 89, 90, 45, 51] 3 ∧
+    current_zone { W0 sumHash with rule := fun _ => some 3 } (some [47, 100]) = .tzif (usrShareZoneinfo ++ [47, 83]) 9 ∧
+    current_zone { W0 sumHash with rule := fun _ => some 3 } (some [47, 120]) = .tzif (usrShareZoneinfo ++ [47, 83]) 9 ∧
+    current_zone { W0 sumHash with rule := fun s => if s = [98] then some 4 else none } (some [32, 98]) = .rule [98] 4 := by
+  decide
+
+/-- with the colliding hash of `hash_collision_is_not_covered`: values "b" and "g" collide, yet after
+unsetting TZ (no assumption needed) and after setting a value of another length the change is honoured -/
+example :
+    run (W0 lenHash) (init .unset 100)
+      [.setTZ [98], .convert 0 false, .setTZ [103], .advance 2000000000, .convert 0 false,
+       .unsetTZ, .advance 1000000000, .convert 0 false,
+       .setTZ [47, 97], .advance 1000000000, .convert 0 true] =
+      [(.tzif (usrShareZoneinfo ++ [47, 98]) 2, .created),
+       (.tzif (usrShareZoneinfo ++ [47, 98]) 2, .rechecked),
+       (.tzif etcLocaltime 7, .reloaded), (.tzif [47, 97] 1, .reloaded)] := by decide
 
 end Chrono.Props.C18
